@@ -62,8 +62,62 @@ def run(ctx):
                                                                                 correspondence='with stalled workers the dispatcher fills the bounded queue: the model reaches cap + workers + 1 open handles',
                                                                                 theorems=['Xcp.C20.bound_is_attained']),
                                       f'with stalled workers the peak {peak} does not reach the level the model predicts for queue capacity {CAP}', no_input=True)
+        # ---- a tree that is DEEP rather than wide (one directory per level): the walker must not hold a descriptor per level
+        import subprocess
+        depth = 1100
+        subprocess.run(['rm', '-rf', root + '/S', root + '/D'])
+        cur = root + '/S'
+        os.makedirs(cur)
+        fd = os.open(cur, os.O_RDONLY)
+        try:
+            for lvl in range(depth):
+                os.mkdir('d', dir_fd=fd)
+                nfd = os.open('d', os.O_RDONLY, dir_fd=fd); os.close(fd); fd = nfd
+                if lvl % 100 == 99:
+                    f = os.open(f'f{lvl}', os.O_CREAT | os.O_WRONLY, 0o644, dir_fd=fd); os.write(f, b'deep'); os.close(f)
+        finally:
+            os.close(fd)
+        for driver in ('parblock', 'parfile'):
+            subprocess.run(['rm', '-rf', root + '/D'])
+            r = scen.run_xcp(root, ['-r', '--driver', driver, '--workers', '4', 'S', 'D'], timeout=600, nofile=1024, trace=True)
+            peak = r.final.get('peak_fds', -1)
+            bound = (2 * (CAP + 4 + 1) if driver == 'parblock' else 2 * 4) + CONST
+            ctx.count(f'deep.{driver}.exit.{r.cls}'); ctx.case(('deep', depth, driver), True, sample=dict(tree=f'{depth} nested directories', driver=driver, peak_descriptors=peak, model_bound=bound))
+            peaks[('deep', depth, driver)] = peak
+            nfiles = int(subprocess.run(f'find {root}/D -type f | wc -l', shell=True, capture_output=True, text=True).stdout or 0)
+            if r.cls != '0' or nfiles != depth // 100:
+                ctx.violation(f'deep-{driver}.json', dict(depth=depth, driver=driver, exit=r.cls, copied_files=nfiles, peak=peak, stderr=r.stderr[-300:]),
+                              f'C20: copying a tree {depth} directories deep under RLIMIT_NOFILE=1024 failed or is incomplete ({r.cls}, {nfiles} of {depth // 100} files, peak {peak} descriptors): {r.stderr.strip()[-100:]}')
+            elif peak > bound:
+                ctx.violation(f'deep-{driver}-peak.json', dict(depth=depth, driver=driver, peak=peak, bound=bound, correspondence='descriptor peak vs model bound on a deep tree'),
+                              f'measured peak {peak} exceeds the model bound {bound} on a tree {depth} levels deep ({driver})', no_input=True)
+        subprocess.run(['rm', '-rf', root + '/S', root + '/D'])
+        # ---- many SPARSE files, pool threads slower than the dispatcher: the bounded queue must hold the dispatcher back for
+        # sparse files exactly as for plain ones
+        nsp = 700 if ctx.quick else 3000
+        os.makedirs(root + '/S')
+        for i in range(nsp):
+            f = os.open(f'{root}/S/sp{i}', os.O_CREAT | os.O_WRONLY, 0o644); os.ftruncate(f, 1 << 20); os.pwrite(f, b'data' * 1024, 512 * 1024); os.close(f)
+        os.sync()
+        for workers in (2,):
+            subprocess.run(['rm', '-rf', root + '/D'])
+            plan = ['stall copy_file_range 40000']
+            r = scen.run_xcp(root, ['-r', '--driver', 'parblock', '--workers', str(workers), 'S', 'D'], plan=plan, timeout=900, nofile=1024, trace=True)
+            peak = r.final.get('peak_fds', -1)
+            bound = 2 * (CAP + workers + 1) + CONST
+            ctx.count(f'sparse_many.exit.{r.cls}'); ctx.case(('sparse-many', nsp, workers), True, sample=dict(files=nsp, layout='1 MiB apparent, 4 KiB data', workers=workers, stall_us=40000, peak_descriptors=peak, model_bound=bound))
+            peaks[('sparse', nsp, workers)] = peak
+            if r.cls != '0':
+                ctx.violation(f'sparse-many-{workers}.json', dict(files=nsp, workers=workers, plan=plan, exit=r.cls, peak=peak, stderr=r.stderr[-300:]),
+                              f'C20: copying {nsp} sparse files under RLIMIT_NOFILE=1024 with slow pool threads failed ({r.cls}, peak {peak}): {r.stderr.strip()[-100:]}')
+            elif peak > bound:
+                ctx.cov['disagreements_checked'] += 1
+                ctx.violation(f'sparse-many-{workers}-peak.json', dict(files=nsp, workers=workers, plan=plan, peak=peak, bound=bound, correspondence='descriptor peak vs 2*(cap+workers+1)+const for sparse files',
+                                                                       theorems=['Xcp.C20.parblock_open_handles_bounded']),
+                              f'measured peak {peak} exceeds the model bound {bound} ({nsp} sparse files, {workers} workers)', no_input=True)
+        subprocess.run(['rm', '-rf', root + '/S', root + '/D'])
     ctx.cov['peaks'] = {str(k): v for k, v in peaks.items()}
-    ctx.cov['rule'] = 'trees of 400..3000 (thorough: ..20000) small files x driver x workers x {no stall, every copy_file_range stalled}; RLIMIT_NOFILE=1024. distinct = distinct (files, workers, driver, stall)'
+    ctx.cov['rule'] = 'trees of 400..3000 (thorough: ..20000) small files x driver x workers x {no stall, every copy_file_range stalled}; RLIMIT_NOFILE=1024; a tree 1100 directories deep; 700 (thorough 3000) sparse files with stalled pool threads. distinct = distinct (files, workers, driver, stall)'
     ctx.assumptions += ['descriptors = 2 per open CopyHandle + a constant (stdio, directory handles); crossbeam/threadpool internals hold no descriptors']
 
 
